@@ -207,20 +207,62 @@ def loader(chk, f, E, mol, ens):
             chk.fail("C09.R4", f"{f.key}:unbound:{name}", f.where(node), f"local `{name}` is read at line {node.lineno} but not assigned on every path reaching it (UnboundLocalError)")
     else:
         chk.ok("C09.R4", f"{f.key}:definite-assignment", f.where(), "every local read is assigned on all paths")
-    # otype normalisation: the two string spellings map to the classes
-    norms = {}
-    for s in f.node.body:
-        cur = s
-        while isinstance(cur, ast.If):
-            t = cur.test
-            if isinstance(t, ast.Compare) and norm(t.left) == "otype" and isinstance(t.comparators[0], ast.Constant):
-                for b in cur.body:
-                    if isinstance(b, ast.Assign) and norm(b.targets[0]) == "otype":
-                        norms[t.comparators[0].value] = norm(b.value)
-            cur = cur.orelse[0] if len(cur.orelse) == 1 else None
+    # otype: the two string spellings map to the classes, and a class given as otype passes through untouched
+    norms, clobber = {}, []
+    for st in walk_no_nested(f.node):
+        if isinstance(st, ast.Assign) and norm(st.targets[0]) == "otype":
+            # the assignment must sit in the *body* of an if/elif whose test is `otype == "<literal>"` (or `otype is None`)
+            ok_guard = False
+            for g in walk_no_nested(f.node):
+                if isinstance(g, ast.If) and any(x is st for x in g.body):
+                    conj = g.test.values if isinstance(g.test, ast.BoolOp) and isinstance(g.test.op, ast.Or) else [g.test]
+                    lits = []
+                    good = True
+                    for t in conj:
+                        if isinstance(t, ast.Compare) and norm(t.left) == "otype" and len(t.ops) == 1:
+                            if isinstance(t.ops[0], ast.Eq) and isinstance(t.comparators[0], ast.Constant) and isinstance(t.comparators[0].value, str):
+                                lits.append(t.comparators[0].value)
+                                continue
+                            if isinstance(t.ops[0], ast.Is) and (norm(t.comparators[0]) == "None" or norm(t.comparators[0]) == norm(st.value)):
+                                continue
+                        good = False
+                    if good:
+                        ok_guard = True
+                        for l_ in lits:
+                            norms[l_] = norm(st.value)
+                    # table idiom: `if isinstance(otype, str): otype = {"molecule": ..., "ensemble": ...}[otype]`
+                    if norm(g.test) == "isinstance(otype, str)":
+                        tbl = st.value.value if isinstance(st.value, ast.Subscript) else (st.value.func.value if isinstance(st.value, ast.Call) and isinstance(st.value.func, ast.Attribute) and st.value.func.attr == "get" else None)
+                        if isinstance(tbl, ast.Dict):
+                            ok_guard = True
+                            for k_, v_ in zip(tbl.keys, tbl.values):
+                                if isinstance(k_, ast.Constant):
+                                    norms[k_.value] = norm(v_)
+            if not ok_guard:
+                clobber.append(st)
     want = {"molecule": "ml.Molecule"} | ({"ensemble": "ml.ConformerEnsemble"} if admits_ens else {})
     chk.decide(all(norms.get(k) == v for k, v in want.items()), "C09.R2", f"{f.key}:otype-strings", f.where(),
                f"otype strings map to {norms}", f"otype string normalisation is {norms}, expected {want}")
+    chk.decide(not clobber, "C09.R2", f"{f.key}:otype-class-passes-through", f.where(clobber[0] if clobber else None),
+               "a class given as otype is used as given",
+               f"`{short(clobber[0], 50) if clobber else ''}` also runs when otype is a class (it is not guarded by a test for a string spelling): "
+               f"ml.{E}(..., otype=ml.Structure) returns a different class than ml.Structure.{E}_<fmt>")
+    # an explicit fmt wins over the file suffix
+    for st in walk_no_nested(f.node):
+        if isinstance(st, ast.Assign) and norm(st.targets[0]) == "fmt" and ".suffix" in norm(st.value):
+            _fmt_precedence(chk, f, st)
+
+
+def _fmt_precedence(chk, f, st):
+    v = st.value
+    ok = False
+    if isinstance(v, ast.BoolOp) and isinstance(v.op, ast.Or) and norm(v.values[0]) == "fmt":
+        ok = True
+    for g in walk_no_nested(f.node):
+        if isinstance(g, ast.If) and any(x is st for x in g.body) and norm(g.test) in ("fmt is None", "not fmt", "fmt == None"):
+            ok = not (isinstance(v, ast.BoolOp) and norm(v.values[0]) != "fmt" and "fmt" in names_in(v)) or True
+    chk.decide(ok, "C09.R1", f"{f.key}:explicit-fmt-wins", f.where(st), "the suffix is consulted only when fmt is not given",
+               f"`{short(st, 60)}` lets the file suffix override an explicit fmt: ml.{f.qualname}(obj, 'b.mol2', fmt='xyz') uses mol2")
 
 
 def dumper(chk, f, E, mol, ens):
@@ -257,6 +299,9 @@ def dumper(chk, f, E, mol, ens):
             chk.fail("C09.R4", f"{f.key}:unbound:{name}", f.where(node), f"local `{name}` is read at line {node.lineno} but not assigned on every path reaching it (UnboundLocalError)")
     else:
         chk.ok("C09.R4", f"{f.key}:definite-assignment", f.where(), "every local read is assigned on all paths")
+    for st in walk_no_nested(f.node):
+        if isinstance(st, ast.Assign) and norm(st.targets[0]) == "fmt" and ".suffix" in norm(st.value):
+            _fmt_precedence(chk, f, st)
 
 
 def r6_stream(chk, f):
